@@ -471,6 +471,15 @@ where
             res = txs_receiver.receive() => res,
         };
         let tx = res.expect("receiving tx");
+        // NOTE: Clients cannot be trusted to respect the size limit the space accounting
+        // below relies on; an oversized transaction is dropped instead of overflowing the slice.
+        if tx.0.len() > MAX_TRANSACTION_SIZE {
+            warn!(
+                "dropping transaction of {} bytes (limit {MAX_TRANSACTION_SIZE})",
+                tx.0.len()
+            );
+            continue;
+        }
         tx_count += 1;
         wincode::serialize_into(&mut buffer, &tx)
             .expect("serializing transaction into buffer should not fail");
